@@ -363,6 +363,14 @@ func (c *converter) trackAddedIngress() {
 		if port > 0 {
 			ctx = convtypes.ResourceHATCPService
 		}
+		if port == 0 {
+			// hostnames of the tls blocks might already exist as well
+			for _, tls := range ing.Spec.TLS {
+				for _, hostname := range tls.Hosts {
+					c.tracker.TrackNames(convtypes.ResourceIngress, name, convtypes.ResourceHAHostname, hostname)
+				}
+			}
+		}
 		for _, rule := range ing.Spec.Rules {
 			c.tracker.TrackNames(convtypes.ResourceIngress, name, ctx, normalizeHostname(rule.Host, port))
 			if rule.HTTP != nil {
